@@ -330,7 +330,16 @@ class LaplaceTransformer(UnilateralForwardTransformer):
             if (expr.is_Mul and len(expr.args) == 2 and
                 isinstance(expr.args[0], sym.DiracDelta) and
                     isinstance(expr.args[1], (AppliedUndef, sym.Subs))):
-                return expr.args[1]
+                # Sifting property: x(t) * delta(a * t + b) =
+                # x(tau) * delta(t - tau) / abs(a) where tau = -b / a.
+                delta, fun = expr.args
+                if len(delta.args) > 1 and delta.args[1] != 0:
+                    self.error('Cannot handle product with derivative of DiracDelta')
+                scale, shift = scale_shift(delta.args[0], t)
+                tau = -shift / scale
+                if tau.is_negative:
+                    return sym.S.Zero
+                return const * fun.subs(t, tau) * sym.exp(-s * tau) / abs(scale)
 
             if expr.has(sym.Derivative):
                 return self.derivative_undef(expr, t, s, **kwargs) * const
